@@ -201,37 +201,53 @@ Print Assumptions C03_contract_rename_dir.
    nothing).  The victim's three records are read AFTER the reader has re-keyed its tables for the move, so local [cover]
    facts do not suffice: the hypothesis is c02p's synchronisation invariant [RSync] (well-formed tree, tables and kernel
    watches in bijection with the directories in scope, kernel queue empty, nothing pending), and the watch-state side is
-   c02p's rename_dir_rekey (C02_step_rename_dir_over).  As for C03_contract_rename_dir_tree, that os.walk under the new
-   name finds what it found under the old name is a hypothesis. *)
+   c02p's rename_dir_rekey (C02_step_rename_dir_over).  That os.walk under the new name finds what it found under the old
+   name is no longer a hypothesis (C03_rename_dir_content). *)
 Theorem C03_contract_rename_dir_replacing : forall C full w k r p q w' ep v,
   RSync C w k r -> npath p -> npath q -> c_recursive C = true -> c_mask C = WATCHDOG_ALL ->
   apply_op w (Rename p q) = Some w' ->
   flookup p (w_fs w) = Some ep -> f_dir ep = true -> scope C p -> p <> c_root C -> scope C q -> q <> c_root C ->
   flookup q (w_fs w) = Some v -> f_dir v = true ->
-  content (w_fs w') q = content (w_fs w) p ->
   exists evs, deliver_one C full w k r (Rename p q) = Some evs /\
     collapse evs = collapse (contract (c_recursive C) full (c_root C) (w_fs w) (Rename p q)).
 Proof. exact contract_rename_dir_over. Qed.
 Print Assumptions C03_contract_rename_dir_replacing.
 
+(* In a well-formed world ([wf_fs]: unique normalised paths and inodes, parent-closed) every successful rename of a
+   directory - onto a free name or over an empty directory - moves the sub-tree as it is: os.walk under the new name
+   finds what it found under the old name (same names, same order).  [content]'s fuel, the number of entries, is more
+   than enough for every sub-tree, [fremove] of the replaced directory touches nothing below p, [frename] is a map. *)
+Theorem C03_rename_dir_content : forall w p q w', wf_fs w -> npath p -> npath q ->
+  apply_op w (Rename p q) = Some w' -> fisdir p (w_fs w) = true ->
+  content (w_fs w') q = content (w_fs w) p.
+Proof. exact rename_dir_content. Qed.
+Print Assumptions C03_rename_dir_content.
+
+(* C03_contract_rename_dir_tree without its two tree hypotheses: a directory renamed onto a free name in a well-formed
+   world - inside the scope, out of it, into it. *)
+Theorem C03_contract_rename_dir_wf : forall C full w k r p q w',
+  k_queue k = [] -> pend r = None -> wf_fs w -> npath p -> npath q ->
+  cover C r k (w_fs w) (dirname p) -> cover C r k (w_fs w) (dirname q) ->
+  fisdir p (w_fs w) = true -> fisdir q (w_fs w) = false ->
+  apply_op w (Rename p q) = Some w' ->
+  exists evs, deliver_one C full w k r (Rename p q) = Some evs /\
+    collapse evs = collapse (contract (c_recursive C) full (c_root C) (w_fs w) (Rename p q)).
+Proof. exact contract_rename_dir_wf. Qed.
+Print Assumptions C03_contract_rename_dir_wf.
+
 (* The other case of a directory replacing an empty directory: the replaced directory has no watch of its own (non-recursive
    watch, or the target lies outside the scope) - the kernel reports nothing about it and the operation meets the contract
-   of a rename onto a free name; local [cover] hypotheses as for C03_contract_rename_dir_tree. *)
-Theorem C03_contract_rename_dir_replacing_unwatched : forall C full w k r, k_queue k = [] -> pend r = None ->
-  forall dp np dq nq w',
-  dp <> [] -> last_is_sep dp = false -> valid_name np = true ->
-  dq <> [] -> last_is_sep dq = false -> valid_name nq = true ->
-  cover C r k (w_fs w) dp -> cover C r k (w_fs w) dq ->
-  fisdir (dp ++ sep :: np) (w_fs w) = true -> fisdir (dq ++ sep :: nq) (w_fs w) = true ->
-  watch_of_ino k (ino_of (w_fs w) (dq ++ sep :: nq)) = None ->
-  (c_recursive C = false \/ in_scope (c_recursive C) (c_root C) (dq ++ sep :: nq) = false) ->
-  content (w_fs w') (dq ++ sep :: nq) = content (w_fs w) (dp ++ sep :: np) ->
-  wf_tree (content (w_fs w) (dp ++ sep :: np)) = true ->
-  apply_op w (Rename (dp ++ sep :: np) (dq ++ sep :: nq)) = Some w' ->
-  exists evs, deliver_one C full w k r (Rename (dp ++ sep :: np) (dq ++ sep :: nq)) = Some evs /\
-    collapse evs = collapse (contract (c_recursive C) full (c_root C) (w_fs w)
-                                      (Rename (dp ++ sep :: np) (dq ++ sep :: nq))).
-Proof. exact contract_rename_dir_over_unwatched. Qed.
+   of a rename onto a free name; local [cover] hypotheses, well-formed world. *)
+Theorem C03_contract_rename_dir_replacing_unwatched : forall C full w k r p q w',
+  k_queue k = [] -> pend r = None -> wf_fs w -> npath p -> npath q ->
+  cover C r k (w_fs w) (dirname p) -> cover C r k (w_fs w) (dirname q) ->
+  fisdir p (w_fs w) = true -> fisdir q (w_fs w) = true ->
+  watch_of_ino k (ino_of (w_fs w) q) = None ->
+  (c_recursive C = false \/ in_scope (c_recursive C) (c_root C) q = false) ->
+  apply_op w (Rename p q) = Some w' ->
+  exists evs, deliver_one C full w k r (Rename p q) = Some evs /\
+    collapse evs = collapse (contract (c_recursive C) full (c_root C) (w_fs w) (Rename p q)).
+Proof. exact contract_rename_dir_over_unwatched_wf. Qed.
 Print Assumptions C03_contract_rename_dir_replacing_unwatched.
 
 (* ================================================================== history-level soundness *)
@@ -528,19 +544,35 @@ Example C03_contract_rename_dir_replacing_nonvacuous :
       prun (Px true) s0 (tie_history (Px true) s0 (Rename rp_d rp_e) 4) [] = Done (s, obs) /\ p_out s = rp_events.
 Proof. exact replace_nonvacuous. Qed.
 
-(* C03_contract_rename_dir_replacing_unwatched: /R/d moved over the empty directory /O/z2 outside the scope (recursive watch) *)
+(* C03_contract_rename_dir_replacing_unwatched (and C03_rename_dir_content with fremove): the world of the previous example
+   plus the empty directory /s/O/z outside the scope; mv /s/R/d /s/O/z is a move-out: DirDeleted + parent modified *)
 Example C03_contract_rename_dir_replacing_unwatched_nonvacuous :
-  let t := ex_fs ++ [{| f_path := ex_sl ex_O 119; f_ino := 30; f_dir := true |}] in
-  let w := {| w_fs := t; w_next_ino := 40 |} in
-  let q := ex_sl ex_O 119 in
-  fisdir q t = true /\ watch_of_ino (ex_k true) (ino_of t q) = None /\ in_scope true ex_R q = false /\
-  Forall (cover (ex_C true) (ex_r true) (ex_k true) t) [ex_R; ex_O] /\
-  (exists w', apply_op w (Rename ex_Rd q) = Some w' /\ content (w_fs w') q = content t ex_Rd) /\
-  deliver_one (ex_C true) false w (ex_k true) (ex_r true) (Rename ex_Rd q)
-    = Some [mk DirDeleted ex_Rd []; parent_modified ex_Rd] /\
-  contract true false ex_R t (Rename ex_Rd q) = [mk DirDeleted ex_Rd []; parent_modified ex_Rd].
+  exists r k w',
+    construct (cfgx true true) kinit (w_fs rp_world2) = Some (r, k) /\ k_queue k = [] /\ pend r = None /\
+    wf_fs rp_world2 /\ npath rp_d /\ npath rp_z /\
+    cover (cfgx true true) r k (w_fs rp_world2) (dirname rp_d) /\ cover (cfgx true true) r k (w_fs rp_world2) (dirname rp_z) /\
+    fisdir rp_d (w_fs rp_world2) = true /\ fisdir rp_z (w_fs rp_world2) = true /\
+    watch_of_ino k (ino_of (w_fs rp_world2) rp_z) = None /\ in_scope true pR rp_z = false /\
+    apply_op rp_world2 (Rename rp_d rp_z) = Some w' /\
+    deliver_one (cfgx true true) false rp_world2 k r (Rename rp_d rp_z) = Some [mk DirDeleted rp_d []; parent_modified rp_d] /\
+    contract true false pR (w_fs rp_world2) (Rename rp_d rp_z) = [mk DirDeleted rp_d []; parent_modified rp_d].
+Proof. exact replace_unwatched_nonvacuous. Qed.
+
+(* C03_contract_rename_dir_wf: in the world of C03_contract_rename_dir_replacing_nonvacuous, /s/R/d -> /s/R/n (free name) *)
+Example C03_contract_rename_dir_wf_fs_nonvacuous :
+  let q := sub pR 110 in
+  exists r k, construct (cfgx true true) kinit (w_fs rp_world) = Some (r, k) /\ k_queue k = [] /\ pend r = None /\
+  wf_fs rp_world /\ npath rp_d /\ npath q /\
+  cover (cfgx true true) r k (w_fs rp_world) (dirname rp_d) /\ cover (cfgx true true) r k (w_fs rp_world) (dirname q) /\
+  fisdir rp_d (w_fs rp_world) = true /\ fisdir q (w_fs rp_world) = false /\
+  apply_op rp_world (Rename rp_d q) <> None /\
+  deliver_one (cfgx true true) false rp_world k r (Rename rp_d q) =
+    Some [mk DirMoved rp_d q; parent_modified rp_d; parent_modified q;
+          {| ev_cls := FileMoved; ev_src := rp_df; ev_dest := sub q 102; ev_synth := true |}].
 Proof.
-  vm_compute. repeat split.
-  - repeat constructor; eexists; repeat split.
-  - eexists. split; reflexivity.
+  eexists; eexists. split; [vm_compute; reflexivity|]. split; [reflexivity|]. split; [reflexivity|].
+  split; [exact rp_world_wf|]. split; [apply npath_sub; [split; [discriminate | reflexivity] | reflexivity]|].
+  split; [apply npath_sub; [split; [discriminate | reflexivity] | reflexivity]|].
+  split; [vm_compute; eexists; repeat split|]. split; [vm_compute; eexists; repeat split|].
+  repeat split; vm_compute; congruence.
 Qed.
